@@ -56,6 +56,8 @@ func RunStep(labels []string) (out []string) {
 		if err != nil {
 			if strings.HasPrefix(err.Error(), "PANIC") {
 				out = append(out, "PANIC")
+			} else if strings.Contains(err.Error(), "dynamic table size update MUST occur at the beginning") {
+				out = append(out, "ERR2U") // the relay's decoder refused a second leading size update
 			} else {
 				out = append(out, "ERR")
 			}
